@@ -481,15 +481,20 @@ class Engine:
         fr.site_counter[base] = cnt + 1
         full = base if cnt == 0 else f"{base}@path{cnt}"
         conj = _conjuncts(goal)
+        snap = st.fork()      # for known-finding predicates evaluated at this program point
+        if getattr(fr, "snap_frames", None) is not None:
+            snap.frames = [dict(f) for f in fr.snap_frames]
         if len(conj) > 1:
             # one obligation per conjunct: smaller queries, sharper diagnostics
             for k, g in enumerate(conj):
                 o = Obligation(f"{full}[{k}]", st.path, g, kind, getattr(node, "lineno", None))
                 o.fuel = fr.contract.fuel if fr.contract is not None else None
+                o.state = snap
                 fr.obligations.append(o)
             return o
         o = Obligation(full, st.path, goal, kind, getattr(node, "lineno", None))
         o.fuel = fr.contract.fuel if fr.contract is not None else None
+        o.state = snap
         fr.obligations.append(o)
         return o
 
@@ -601,7 +606,10 @@ class Engine:
             return None
         for depth in range(fuel + 1):
             s = z3.Solver()
-            s.set("timeout", timeout_ms)
+            # with too few unfoldings the query is satisfiable but models are hard to find:
+            # spend little time on the early rounds, the full budget on the last one
+            budget = timeout_ms if depth == fuel else min(timeout_ms, [1000, 2500, 5000, 8000][min(depth, 3)])
+            s.set("timeout", budget)
             for f in base:
                 s.add(f)
             for d in defs:
